@@ -85,7 +85,7 @@ class Row(Vector):
 	def __init__(self, table, index=0):
 		# SNAPSHOT: Grab raw column lists for speed
 		self._raw_cols = [col._underlying for col in table._underlying]
-		self._column_map = table._column_map
+		self._column_map = table._current_column_map()
 		self._index = index
 		
 		# Smart Dtype Inference (Runs once per table iteration/access)
@@ -303,11 +303,18 @@ class Table(Vector):
 
 		return column_map
 	
+	def _current_column_map(self):
+		"""Return the column map, rebuilding it first if any column was renamed
+		through a live view (col.name = ...) since the map was last built."""
+		if any(col._wild for col in self._underlying or []):
+			self._column_map = self._build_column_map()
+		return self._column_map
+
 	def __dir__(self):
 		"""Return list of available attributes including sanitized column names."""
 		# Use object.__dir__ to get instance attributes, then add column names
 		base_attrs = object.__dir__(self)
-		return set(list(self._build_column_map().keys()) + base_attrs)
+		return set(list(self._current_column_map().keys()) + base_attrs)
 	
 	def column_names(self):
 		"""Return list of column names (original names, not sanitized).
@@ -328,8 +335,7 @@ class Table(Vector):
 	def __getattr__(self, attr):
 		"""Access columns by sanitized attribute name using pre-computed column map."""
 		# Check if any column has been renamed and rebuild map if needed
-		if any(col._wild for col in self._underlying or []):
-			self._column_map = self._build_column_map()
+		column_map = self._current_column_map()
 
 		# Parse for indexed accessor pattern (e.g., 'total__5')
 		base_name, col_idx = _parse_indexed_attr(attr)
@@ -364,7 +370,7 @@ class Table(Vector):
 		
 		else:
 			# Regular access: look up by sanitized name
-			col_idx_lookup = self._column_map.get(attr) or self._column_map.get(attr.lower())
+			col_idx_lookup = column_map.get(attr) or column_map.get(attr.lower())
 			if col_idx_lookup is not None:
 				return self._underlying[col_idx_lookup]
 		
@@ -446,8 +452,9 @@ class Table(Vector):
 				self._replace_column(col_idx_indexed, value)
 				return
 			
-			# Regular column lookup by name
-			col_idx = self._column_map.get(attr) or self._column_map.get(attr.lower())
+			# Regular column lookup by name (map refreshed if a column was renamed)
+			column_map = self._current_column_map()
+			col_idx = column_map.get(attr) or column_map.get(attr.lower())
 			if col_idx is not None:
 				# Replace the column in _underlying
 				if not isinstance(value, Vector):
@@ -729,16 +736,18 @@ class Table(Vector):
 		elif isinstance(col_spec, int):
 			target_indices = [col_spec]
 		elif isinstance(col_spec, str):
-			# Look up by name
-			idx = self._column_map.get(col_spec) or self._column_map.get(col_spec.lower())
+			# Look up by name (map refreshed if a column was renamed)
+			column_map = self._current_column_map()
+			idx = column_map.get(col_spec) or column_map.get(col_spec.lower())
 			if idx is None:
 				raise SerifKeyError(f"Column '{col_spec}' not found")
 			target_indices = [idx]
 		elif isinstance(col_spec, (tuple, list)):
 			# Handle list of names/ints
+			column_map = self._current_column_map()
 			for c in col_spec:
 				if isinstance(c, str):
-					idx = self._column_map.get(c) or self._column_map.get(c.lower())
+					idx = column_map.get(c) or column_map.get(c.lower())
 					if idx is None:
 						raise SerifKeyError(f"Column '{c}' not found")
 					target_indices.append(idx)
@@ -878,7 +887,7 @@ class Table(Vector):
 				# Set name
 				col._name = col_name
 
-				if _sanitize_user_name(col_name) in self._column_map:
+				if _sanitize_user_name(col_name) in self._current_column_map():
 					warnings.warn(f"Adding column with name '{col_name}' which already exists in the table. Consider renaming to avoid confusion.", UserWarning, stacklevel=2)
 				named_cols.append(col)
 			
